@@ -102,8 +102,8 @@ class Slicer:
                     work_b.append(b)
                     if term is not None:
                         calls[b] = term
+        self.last_blocks = seen_b
         return seen_l, sorted(calls.items())
-
 
     def data_backward(self, seed_locals):
         """data dependence only (no control dependence): which locals / parameters can flow into the seeds"""
